@@ -465,7 +465,9 @@ func (e *Engine) evalSpec(fr *Frame, gen *ssa.Function, args []Val, st *State, o
 	for i, p := range gen.Params {
 		nf.vals[p] = args[i]
 	}
-	out, res := e.runFunction(nf, st.clone())
+	work := st.clone()
+	work.pc = tTrue // the caller guards the result with its own path condition
+	out, res := e.runFunction(nf, work)
 	if out == nil || len(res) != 1 {
 		e.unsupported("spec function %s does not return a value", gen.Name())
 	}
